@@ -79,7 +79,7 @@ Proof.
         assert (n / c < 0).
         { destruct D1 as [k Hk]. rewrite Hk, Z.div_mul by lia. nia. }
         lia.
-  - assert (c = 1) by lia. apply exact_ok. split; [|reflexivity]. simpl. repeat split; try lia. fold c. exact H.
+  - assert (c = 1) by lia. apply exact_ok. split; [|reflexivity]. simpl. repeat split; first [lia | fold c; exact H].
 Qed.
 
 (* unary minus and negate *)
@@ -119,13 +119,14 @@ Qed.
 (* inverse *)
 Lemma Qinv_frac_pos n d : 0 < n -> 0 < d -> (d # Z.to_pos n) == / (n # Z.to_pos d).
 Proof.
-  intros Hn Hd. destruct n as [|p|p]; try lia. unfold Qinv. simpl. rewrite Z2Pos.id by lia. reflexivity.
+  intros Hn Hd. destruct n as [|p|p]; try lia. unfold Qinv, Qeq. simpl.
+  rewrite Pos2Z.inj_mul, Z2Pos.id by lia. reflexivity.
 Qed.
 
 Lemma Qinv_frac_neg n d : n < 0 -> 0 < d -> (- d # Z.to_pos (- n)) == / (n # Z.to_pos d).
 Proof.
-  intros Hn Hd. destruct n as [|p|p]; try lia. unfold Qinv. simpl.
-  unfold Qeq. simpl. rewrite Z2Pos.id by lia. reflexivity.
+  intros Hn Hd. destruct n as [|p|p]; try lia. unfold Qinv, Qeq. simpl.
+  rewrite <- Pos2Z.opp_pos, Pos2Z.inj_mul, Z2Pos.id by lia. ring.
 Qed.
 
 Lemma inv_word_spec n d : wfW n d -> n <> 0 ->
